@@ -4,7 +4,7 @@
    every successful heartbeat Update replaces a live version written by the same instance with the
    same id and token (monitor clauses 105 and 503). *)
 From RecordUpdate Require Import RecordUpdate.
-From LE Require Import Base Ev World Mon Proto GenGuards SimBasics SimOwn.
+From LE Require Import Base Ev Consts World Mon Proto GenGuards SimBasics SimOwn.
 Open Scope Z_scope.
 
 Definition in_hist_by (b : base) (k r v a : Z) : Prop :=
@@ -373,8 +373,10 @@ Proof.
     rewrite Hv, <- Gi. apply Hw; assumption. }
   cbn [bapply]. change (b_pend (b <| b_now := t |>)) with (b_pend b). rewrite Hop. fold v. fold lr. fold b1.
   destruct ((p_kind p =? kUpdate) && (p_inner p =? sHeartbeat) && (rk =? oOk) && io_flag (inst_of b1 i)
-            && (v_stok (vinfo_of b1 (p_val p)) =? io_tok (inst_of b1 i)))%bool eqn:Econd; [|exact I1].
+            && (v_stok (vinfo_of b1 (p_val p)) =? io_tok (inst_of b1 i))
+            && (t - p_t p <? hb_update_timeout (ic_H (cfg_of b1 i))))%bool eqn:Econd; [|exact I1].
   (* the instance takes the new revision as a view of its running term *)
+  apply andb_prop in Econd. destruct Econd as [Econd _].
   apply andb_prop in Econd. destruct Econd as [Econd Etok]. apply andb_prop in Econd. destruct Econd as [Econd _].
   apply andb_prop in Econd. destruct Econd as [Econd Eok]. apply andb_prop in Econd. destruct Econd as [Ek _].
   apply Z.eqb_eq in Ek, Eok, Etok.
